@@ -44,7 +44,13 @@ def _urandom(n):
 
 
 def _choice(seq):
-    return seq[0]
+    fn = _state.get('choice')
+    return seq[0] if fn is None else fn(seq)
+
+
+def set_choice(fn):
+    """Environment answer for random.choice inside nfc (None: first item)."""
+    _state['choice'] = fn
 
 
 def _build():
